@@ -477,31 +477,66 @@ func check(c Case) error {
 			}
 		}
 		if valid && !noFormat {
-			// now break the tree and try again: Render and Save must fail and leave everything alone
-			f.Add(jen.Func().Lit(1).Op("}"))
-			w := &faultWriter{}
-			err := f.Render(w)
-			cell("File.Render (valid, rendered, then broken)", "none", false)
-			if err == nil {
-				return fmt.Errorf("a File that rendered once and then got an invalid item renders without error: %q", w.buf.Bytes())
+			// now break the File and try again: Render and Save must fail and leave everything alone. Each
+			// way of breaking it is applied to a File object that has rendered (the first: the one rendered
+			// three times above); what must happen is what a twin does that was built the same way and
+			// broken before its first render
+			breakers := []struct {
+				name  string
+				apply func(f *jen.File)
+			}{
+				{"an invalid item", func(f *jen.File) { f.Add(jen.Func().Lit(1).Op("}")) }},
+				{"an unterminated package comment that swallows the package clause", func(f *jen.File) { f.Comment("/* y */"); f.PackageComment("/* doc") }},
+				{"an unterminated header comment that swallows the package clause", func(f *jen.File) { f.Comment("/* y */"); f.HeaderComment("/* head") }},
+				{"a canonical path that breaks the package clause", func(f *jen.File) { f.CanonicalPath = "a/b\"\nfunc (" }},
+				{"a package prefix that is no identifier", func(f *jen.File) { f.PackagePrefix = "1-"; f.Add(jen.Qual("zz.example/late", "X")) }},
 			}
-			if w.calls != 0 {
-				return fmt.Errorf("a File that rendered once and then got an invalid item failed to render but wrote %d bytes", w.bytes)
-			}
-			if dir, derr := os.MkdirTemp("", "c10s-"); derr == nil {
-				p := filepath.Join(dir, "t.go")
-				old := []byte("// good output of an earlier run\npackage old\n")
-				_ = os.WriteFile(p, old, 0o644)
-				for attempt := 1; attempt <= 2; attempt++ {
-					serr := f.Save(p)
-					got, _ := os.ReadFile(p)
-					cell("File.Save (valid, rendered, then broken)", "existing target", false)
-					if serr == nil || !bytes.Equal(got, old) {
-						os.RemoveAll(dir)
-						return fmt.Errorf("Save attempt %d of a File broken after a successful render: err=%v, target now %q", attempt, serr, got)
+			for bi, br := range breakers {
+				if bi > 0 {
+					f, _ = build()
+					if err := f.Render(io.Discard); err != nil {
+						return fmt.Errorf("File.Render of a fresh build of a valid tree failed: %v", firstLine(err))
 					}
 				}
-				os.RemoveAll(dir)
+				twin, _ := build()
+				br.apply(twin)
+				tw := &bytes.Buffer{}
+				twinErr := twin.Render(tw)
+				if bi == 0 && twinErr == nil {
+					return fmt.Errorf("a File with an invalid item renders without error: %q", tw.Bytes())
+				}
+				br.apply(f)
+				w := &faultWriter{}
+				err := f.Render(w)
+				cell("File.Render (valid, rendered, then broken: "+br.name+")", "none", twinErr == nil)
+				if twinErr == nil {
+					// this tree survives the change: the File that rendered before must agree with its twin
+					if err != nil || !bytes.Equal(w.buf.Bytes(), tw.Bytes()) {
+						return fmt.Errorf("a File that rendered once and then got %s: err=%v, wrote %q; a File built the same way that got it before its first render wrote %q", br.name, firstLine(err), w.buf.Bytes(), tw.Bytes())
+					}
+					continue
+				}
+				if err == nil {
+					return fmt.Errorf("a File that rendered once and then got %s renders without error (a File built the same way that got it before its first render fails: %v): %q", br.name, firstLine(twinErr), w.buf.Bytes())
+				}
+				if w.calls != 0 {
+					return fmt.Errorf("a File that rendered once and then got %s failed to render but wrote %d bytes", br.name, w.bytes)
+				}
+				if dir, derr := os.MkdirTemp("", "c10s-"); derr == nil {
+					p := filepath.Join(dir, "t.go")
+					old := []byte("// good output of an earlier run\npackage old\n")
+					_ = os.WriteFile(p, old, 0o644)
+					for attempt := 1; attempt <= 2; attempt++ {
+						serr := f.Save(p)
+						got, _ := os.ReadFile(p)
+						cell("File.Save (valid, rendered, then broken: "+br.name+")", "existing target", false)
+						if serr == nil || !bytes.Equal(got, old) {
+							os.RemoveAll(dir)
+							return fmt.Errorf("Save attempt %d of a File that got %s after a successful render: err=%v, target now %q", attempt, br.name, firstLine(serr), got)
+						}
+					}
+					os.RemoveAll(dir)
+				}
 			}
 		}
 	}
@@ -767,7 +802,7 @@ func firstLine(err error) string {
 func TestC10(t *testing.T) {
 	r := hx.Start(t, "C10")
 	defer r.Finish(t)
-	r.Rule("fault enumeration x generated trees: for every generated tree (plausible valid programs and random, mostly invalid, DSL trees) the complete matrix {File.Render, Statement.Render, Statement.RenderWithFile, Group.Render, Group.RenderWithFile} x {healthy writer, error on the 1st / 2nd / 3rd Write, short write + error, every Write fails} and File.Save x {fresh target, existing target with known content and mtime, existing targets resembling the output (same bytes, other letter case, a prefix, output plus trailing bytes), missing parent directory, path component is a regular file, target is a directory, /dev/full, name too long} is executed, plus sequences on one File object (three renders in a row; a File that rendered, then received an invalid item, must fail without writing and Save must leave the target alone, twice); the matrix with per-cell counts is in the evidence; non-trivial = every tree (each meets every cell); distinct by tree")
+	r.Rule("fault enumeration x generated trees: for every generated tree (plausible valid programs and random, mostly invalid, DSL trees) the complete matrix {File.Render, Statement.Render, Statement.RenderWithFile, Group.Render, Group.RenderWithFile} x {healthy writer, error on the 1st / 2nd / 3rd Write, short write + error, every Write fails} and File.Save x {fresh target, existing target with known content and mtime, existing targets resembling the output (same bytes, other letter case, a prefix, output plus trailing bytes), missing parent directory, path component is a regular file, target is a directory, /dev/full, name too long} is executed, plus sequences on one File object (three renders in a row; a File that rendered and was then broken — an invalid item, an unterminated package or header comment that swallows the package clause, a canonical path or package prefix that breaks the text — must do what a twin does that was broken before its first render: fail without writing, and Save must leave the target alone, twice); the matrix with per-cell counts is in the evidence; non-trivial = every tree (each meets every cell); distinct by tree")
 	r.Assume("the process runs as root, so permission faults are not used; a Write that returns n < len(p) without an error violates io.Writer's contract and is not injected; whether a returned error wraps the injected cause is recorded, not asserted")
 	valid, invalid := 0, 0
 	note := func(c Case) {
